@@ -22,6 +22,7 @@ type FuncInfo struct {
 	Decl *ast.FuncDecl
 	Obj  *types.Func
 	Con  *Contract
+	Sig  *types.Signature // set for closure units (function literals)
 }
 
 type Universe struct {
@@ -122,6 +123,13 @@ func loadUniverse(repo, verif string, overlay map[string][]byte, preferMirror bo
 	}
 	for k, c := range u.cs.Contracts {
 		fi := u.funcs[k]
+		if fi == nil && strings.Contains(c.Key, "#") {
+			// a function literal assigned to a local variable: parent#var
+			fi = u.closureUnit(c.Pkg, c.Key)
+			if fi != nil {
+				u.funcs[k] = fi
+			}
+		}
 		if fi == nil {
 			u.bindingErrs = append(u.bindingErrs, fmt.Sprintf("%s: contract for unknown function %s (%s:%d)", k, c.Key, c.File, c.Line))
 			continue
